@@ -28,7 +28,8 @@ BATCH = (2, 3, 2)
 
 def BOUNDS(tier):
     return {'max_order': 3 if tier == 'quick' else 4, 'sizes': 'M_i in {1,%s} N_i in {1,%s} K_i in {1,%s}' % (PM, PN, PK),
-            'batch_ranks': '0..3', 'dtypes': DTF}
+            'batch_ranks': '0..3', 'dtypes': DTF,
+            'uniform': 'square n^d operators (n=2,3 at order 3; n=2 at order 4) with uniform ranks for both operands'}
 
 
 def _mn(d, pm, pn, maxones):
@@ -70,6 +71,22 @@ def cases(tier, seed):
                                 continue
                             K = [1 if m else PK[i] for i, m in enumerate(kmask)]
                             yield dict(base, op='A@B', RB=RB, K=K)
+    # uniform structures (square n x n modes, all interior ranks equal, for both operands): every interior core of an operand and of
+    # the result has ONE shape - never produced by the distinct-size alphabet above (anything keyed or cached by shape collides)
+    for d in (3, 4):
+        for n in (2, 3):
+            if d == 4 and n == 3:
+                continue
+            for r in (1, 2):
+                for q in (2, 3):
+                    RA, RB = [1] + [r] * (d - 1) + [1], [1] + [q] * (d - 1) + [1]
+                    for dt, fam in DTF[:2]:
+                        base = {'M': [n] * d, 'N': [n] * d, 'RA': RA, 'dt': dt, 'fam': fam, 's': salt}
+                        for op in ('t', 'A*s', 'A/s', 'A+s'):
+                            yield dict(base, op=op)
+                        for op in ('A@x', 'x@A', 'A+B', 'A-B', 'A*B'):
+                            yield dict(base, op=op, RB=RB)
+                        yield dict(base, op='A@B', RB=RB, K=[n] * d)
     for d1 in range(1, 3):
         for d2 in range(1, 3):
             for M1, N1 in _mn(d1, PM, PN, 1):
